@@ -318,7 +318,14 @@ func baseRawSet(L *LState) int {
 
 func baseSelect(L *LState) int {
 	L.CheckTypes(1, LTNumber, LTString)
-	switch lv := L.Get(1).(type) {
+	arg := L.Get(1)
+	if str, ok := arg.(LString); ok {
+		// any string but '#' goes through luaL_checkint: a numeral is an index
+		if num, err := parseNumber(string(str)); err == nil {
+			arg = num
+		}
+	}
+	switch lv := arg.(type) {
 	case LNumber:
 		idx := int(lv)
 		num := L.GetTop()
